@@ -140,20 +140,22 @@ const (
 
 // ConnScript drives one connection.
 type ConnScript struct {
-	DialAt     Dur
-	Steps      []Step
-	Lat        []Dur // client->server latency per segment, cycled
-	LatBack    []Dur // server->client
-	SrvCaps    []int // short-read caps at the server endpoint, cycled
-	SrvFaults  ConnFaults
-	Cut        int // cut the client's stream after this many octets (<0: no cut)
-	CutKind    int
-	AwaitTO    Dur // bound on every wait for replies (fake time)
-	IdleEnd    Dur // at the end of the script, read until EOF or this long without data
-	NoClose    bool
-	Client     *ClientScript // non-nil: a real smtp.Client instead of the raw driver
-	Stub       *StubScript   // non-nil: the peer is the scripted stub server, not the real smtp.Server
-	AcceptErrs int           // temporary Accept errors injected before this connection is offered
+	DialAt         Dur
+	Steps          []Step
+	Lat            []Dur // client->server latency per segment, cycled
+	LatBack        []Dur // server->client
+	SrvCaps        []int // short-read caps at the server endpoint, cycled
+	SrvEOFWithData bool  // the server endpoint reads the last octets together with io.EOF when the FIN is already there
+	SrvFaults      ConnFaults
+	Cut            int // cut the client's stream after this many octets (<0: no cut)
+	CutKind        int
+	AwaitTO        Dur // bound on every wait for replies (fake time)
+	IdleEnd        Dur // at the end of the script, read until EOF or this long without data
+	NoClose        bool
+	Silent         bool          // the client connects and sends nothing at all (no TLS ClientHello either); it reads until the server ends the connection
+	Client         *ClientScript // non-nil: a real smtp.Client instead of the raw driver
+	Stub           *StubScript   // non-nil: the peer is the scripted stub server, not the real smtp.Server
+	AcceptErrs     int           // temporary Accept errors injected before this connection is offered
 }
 
 // Admin actions.
@@ -210,7 +212,7 @@ func (sc *Scenario) Describe() []string {
 		}
 	}
 	for i, c := range sc.Conns {
-		out = append(out, fmt.Sprintf("conn%d: dial=%v cut=%d/%d lat=%v caps=%v failwrite=%d blockwrite=%d/%v accepterrs=%d", i, c.DialAt, c.Cut, c.CutKind, c.Lat, clipInts(c.SrvCaps, 8), c.SrvFaults.FailWriteAt, c.SrvFaults.BlockWriteAt, c.SrvFaults.BlockFor, c.AcceptErrs))
+		out = append(out, fmt.Sprintf("conn%d: dial=%v cut=%d/%d lat=%v caps=%v failwrite=%d blockwrite=%d/%v accepterrs=%d silent=%v", i, c.DialAt, c.Cut, c.CutKind, c.Lat, clipInts(c.SrvCaps, 8), c.SrvFaults.FailWriteAt, c.SrvFaults.BlockWriteAt, c.SrvFaults.BlockFor, c.AcceptErrs, c.Silent))
 		for j, s := range c.Steps {
 			out = append(out, fmt.Sprintf("  step%d: %s", j, s))
 		}
